@@ -76,6 +76,11 @@ Theorem C16_merge_nokeys : forall events, merge_events_by_keys events [] = event
 Proof. exact merge_nokeys. Qed.
 Print Assumptions C16_merge_nokeys.
 
+(* on aw-core's millisecond-aligned timestamps the constructor's flooring is the identity *)
+Theorem C16_floor_ms_aligned : forall t, t mod 1000 = 0 -> floor_ms t = t.
+Proof. exact floor_ms_aligned. Qed.
+Print Assumptions C16_floor_ms_aligned.
+
 (* ------------------------------------------------------------------ chunk_events_by_key *)
 
 (* on the longest key-bearing prefix: the sub-events concatenate back to it, and every
